@@ -14,6 +14,8 @@ const Z32: AtomicU32 = AtomicU32::new(0);
 
 /// destructor runs of *original* elements, per id
 pub static DROPPED: [AtomicU32; MAX_IDS] = [Z32; MAX_IDS];
+/// original elements created, per id
+pub static CREATED: [AtomicU32; MAX_IDS] = [Z32; MAX_IDS];
 /// clones made, per id
 pub static CLONED: [AtomicU32; MAX_IDS] = [Z32; MAX_IDS];
 /// destructor runs of clones, per id
@@ -33,6 +35,7 @@ pub fn ledger_reset(n_ids: usize, salt: u64) {
     let n = n_ids.min(MAX_IDS);
     for i in 0..n {
         DROPPED[i].store(0, Relaxed);
+        CREATED[i].store(0, Relaxed);
         CLONED[i].store(0, Relaxed);
         CLONE_DROPPED[i].store(0, Relaxed);
     }
@@ -63,6 +66,9 @@ pub struct Tk {
 impl Tk {
     pub fn new(id: usize, salt: u64) -> Tk {
         let pay = pay_of(id as u64, salt);
+        if id < MAX_IDS {
+            CREATED[id].fetch_add(1, Relaxed);
+        }
         Tk {
             id: id as u32,
             gen: 0,
